@@ -91,7 +91,10 @@ fn record(seed: u64, case: u64, steps: usize) -> Option<Recorded> {
     for step in 1..=steps {
         let mut pushed: Vec<(MOp, u8)> = Vec::new();
         let last = step == steps;
+        // every third history is durability-call heavy (several checkpoints / syncs / rotations in one
+        // process, few writes in between): the same draw is mapped onto a denser set of such calls
         let roll = r.below(20);
+        let roll = if case % 3 == 2 { match roll { 0..=3 => 0, 4 | 5 => 1, 6..=8 => 2, _ => 10 } } else { roll };
         let (kind, durable_call) = if last && r.chance(0.5) {
             let _ = db.close();
             hist.push("close()".into());
